@@ -80,6 +80,7 @@ func init() {
 		Items: []planItem{
 			{Scenario: "xfer", Stratum: "close", Quick: 700, Thorough: 25000},
 			{Scenario: "peers", Stratum: "listener-close", Quick: 300, Thorough: 10000, PerJob: 8},
+			{Scenario: "xfer", Stratum: "close-yield", Quick: 600, Thorough: 20000, PerJob: 8},
 			{Scenario: "xfer", Stratum: "", Quick: 350, Thorough: 8000},
 		},
 		QuickBudget: 50 * time.Second, ThoroughBudget: 20 * time.Minute,
